@@ -9,7 +9,7 @@ RULE = ("cases = (bit stride b, length, input dtype, content pattern), enumerate
         "non-trivial = the packed array spans more than one 64-bit register or ends inside a register")
 ASSUMPTIONS = ["oracle: Python integers (sum(vals[i+j] << (b*j)))", "values fit in b bits (the statement's precondition)"]
 REQUIRED_FEATURES = ["same_object_sequence", "boundary_bits", "dtype_narrower_than_stride", "length_not_multiple_of_register", "window_straddles_registers", "multi_register", "exhaustive_contents", "empty_array",
-                     "position_list_with_repeats", "stride_64"]
+                     "position_list_with_repeats", "stride_64", "empty_position_list"]
 BOUNDS = {"quick": "b in {1,2,4,8,16,32,64} x lengths {0..5, p-1,p,p+1, 2p-1,2p,2p+1, 3p+2} (p=64/b) x every integer dtype that holds 2**b-1 x "
                    "{zeros, max, alternating, progression}; ALL contents for b=1 (L<=10) and b=2 (L<=5); every position, 6 position-list families, every window 1..p",
           "thorough": "every length 0..3p+2; all contents b=1 L<=12, b=2 L<=6, b=4 L<=3"}
@@ -139,16 +139,29 @@ def check(case, acc):
         fams = [[0], [n - 1], list(range(n))[::-1], [0, 0, n - 1, 0], list(range(0, n, 3)), [i for i in (p - 1, p, p + 1, 2 * p) if i < n],
                 [i for i in (2 * p + 1, 0, p + 1) if i < n], [i for i in (p, 2 * p, 0, p + 1, 2 * p + 1, 1) if i < n],
                 list(range(1, n)), list(range(p // 2 + 1, n)), list(range(max(0, p - 1), n)), list(range(1, min(n, p + 1)))]
+    broke = False
     for lst in fams:
         if not lst:
             continue
         if len(set(lst)) < len(lst):
             acc.feature("position_list_with_repeats")
-        o = attempt(lambda: [int(x) for x in pk()[list(lst)].unpack()])
-        acc.trans()
-        if o != [vals[i] for i in lst]:
-            acc.fail("position-list-wrong", (lst, [vals[i] for i in lst]), o)
+        for form, mk in (("list", lambda: list(lst)), ("ndarray", lambda: np.array(lst, dtype=np.int64))):
+            o = attempt(lambda: [int(x) for x in pk()[mk()].unpack()])
+            acc.trans()
+            if o != [vals[i] for i in lst]:
+                acc.fail("position-list-wrong", (form, lst, [vals[i] for i in lst]), o)
+                broke = True
+                break
+        if broke:
             break
+    if n:
+        # the empty position list (and the empty index array) selects nothing
+        acc.feature("empty_position_list")
+        for form, mk in (("list", lambda: []), ("ndarray", lambda: np.array([], dtype=np.int64))):
+            o = attempt(lambda: [int(x) for x in pk()[mk()].unpack()])
+            acc.trans()
+            if o != []:
+                acc.fail("position-list-wrong", (form, [], []), o)
     # the same packed object observed repeatedly: no read may disturb a later one
     acc.feature("same_object_sequence")
     one = attempt(lambda: BitArray.pack(arr.copy(), b))
